@@ -263,3 +263,33 @@ pub fn value(v: &Value, heap: &Heap) -> String {
         }
     }
 }
+
+/// wire form of a `SerializableValue` (the emitter's view of a captured value)
+pub fn sv(v: &blots_core::values::SerializableValue) -> String {
+    use blots_core::values::SerializableValue as S;
+    match v {
+        S::Number(n) => num(*n),
+        S::Bool(b) => format!("(bool {})", if *b { "t" } else { "f" }),
+        S::Null => "(null)".to_string(),
+        S::String(s) => format!("(str {})", hs(s)),
+        S::List(l) => {
+            let mut s = String::from("(list");
+            for x in l {
+                s.push(' ');
+                s.push_str(&sv(x));
+            }
+            s.push(')');
+            s
+        }
+        S::Record(r) => {
+            let mut s = String::from("(record");
+            for (k, x) in r {
+                s.push_str(&format!(" ({} {})", hs(k), sv(x)));
+            }
+            s.push(')');
+            s
+        }
+        S::Lambda(d) => format!("(svlambda {} {})", largs(&d.args), hs(&d.body)),
+        S::BuiltIn(n) => format!("(builtin {})", n),
+    }
+}
